@@ -38,5 +38,12 @@ Cfg3 ==
       c1 \in BOOLEAN, c2 \in BOOLEAN, f \in SUBSET {"h1", "h2"} }
 Cfg3Valid == {c \in Cfg3 : /\ (c.await["h1"] = c.trig["h1"] \/ c.await["h1"] = M("leave_CONFIGURED", 5))
                            /\ (c.await["h2"] = c.trig["h2"] \/ c.await["h2"] = M("after_START_ACTIVITY", 0))}
-CfgAll == Cfg2Valid \cup Cfg3Valid
+\* a second run in the same environment: what the first run left behind must not be visible in the second
+Cfg4 ==
+  { [trig |-> [h \in {"h1", "h2"} |-> IF h = "h1" THEN t1 ELSE M("after_START_ACTIVITY", 0)],
+     await |-> [h \in {"h1", "h2"} |-> IF h = "h1" THEN t1 ELSE M("after_START_ACTIVITY", 0)],
+     crit |-> [h \in {"h1", "h2"} |-> TRUE],
+     fails |-> {}, plan |-> <<"START_ACTIVITY", "STOP_ACTIVITY", "START_ACTIVITY">>, bodyfails |-> {}, teardown |-> TRUE] :
+      t1 \in {M("before_START_ACTIVITY", -1), M("before_START_ACTIVITY", 0), M("enter_RUNNING", 0), M("before_STOP_ACTIVITY", 0), M("after_STOP_ACTIVITY", -1)} }
+CfgAll == Cfg2Valid \cup Cfg3Valid \cup Cfg4
 =============================================================================
